@@ -75,8 +75,30 @@ def round_half_even(q):
 
 
 def cell_bounds(n, subaps):
-    """edges of the `subaps` cells along an axis of n pixels: documented rounding of k * n/subaps"""
+    """edges of the `subaps` cells along an axis of n pixels: the integer nearest to the EXACT k * n/subaps.
+    Where k * n/subaps is a half-integer (see `cell_edge_ties`) the statement fixes no rule - both neighbouring
+    integers are legitimate edges; this function then returns the even one, and callers that compare with an
+    implementation must treat those edges as set-valued (`cell_counts_edges` takes the edges explicitly)."""
     return [round_half_even(Fraction(k * n, subaps)) for k in range(subaps + 1)]
+
+
+def cell_edge_ties(n, subaps):
+    """the edge indices k (0 < k < subaps) whose exact position k * n/subaps is a half-integer"""
+    return [k for k in range(1, subaps) if (2 * k * n) % subaps == 0 and ((2 * k * n) // subaps) % 2 == 1]
+
+
+def cell_counts_edges(mask, bx, by):
+    """(sum[kx, ky], pixels[kx, ky]) of an integer mask over the cells given by the edge lists bx (first axis)
+    and by (second axis), from the summed-area table (exact integers)"""
+    m = numpy.asarray(mask)
+    if m.dtype.kind not in "iub":
+        raise TypeError("integer mask expected")
+    bx = numpy.asarray(bx, dtype=numpy.int64)
+    by = numpy.asarray(by, dtype=numpy.int64)
+    S = numpy.zeros((m.shape[0] + 1, m.shape[1] + 1), dtype=numpy.int64)
+    S[1:, 1:] = m.astype(numpy.int64).cumsum(0).cumsum(1)
+    sums = (S[bx[1:]][:, by[1:]] - S[bx[:-1]][:, by[1:]] - S[bx[1:]][:, by[:-1]] + S[bx[:-1]][:, by[:-1]])
+    return sums, numpy.outer(numpy.diff(bx), numpy.diff(by))
 
 
 def cell_means(mask, subaps):
